@@ -252,7 +252,7 @@ type FuncResult struct {
 }
 
 // verifyFunction generates the obligations of fn against its contract.
-func (p *Prog) verifyFunction(fn *ssa.Function, spec *FuncSpec) *FuncResult {
+func (p *Prog) verifyFunction(fn *ssa.Function, spec *FuncSpec) (out *FuncResult) {
 	vc := newVC(p, shortFuncName(fn))
 	res := &FuncResult{Name: shortFuncName(fn), Fn: fn, VC: vc}
 	defer func() {
@@ -260,6 +260,7 @@ func (p *Prog) verifyFunction(fn *ssa.Function, spec *FuncSpec) *FuncResult {
 			if ee, ok := r.(evalError); ok {
 				vc.errorf("%s", ee.msg)
 				res.Errors = vc.errs
+				out = res
 				return
 			}
 			panic(r)
@@ -342,6 +343,7 @@ func (p *Prog) verifyFunction(fn *ssa.Function, spec *FuncSpec) *FuncResult {
 	// frame
 	vc.modAll = spec.ModAll
 	vc.modHeap = spec.ModHeap
+	vc.preserveSelf = vc.preservedHeaps(spec, env)
 	vc.modLocs = vc.evalModifies(spec, env)
 	vc.checkFrame = true
 	rnames := vc.resultNames(spec, nameSig(fn))
